@@ -7,6 +7,69 @@ from common import err_code
 
 PROP = 1
 NPROF = 6
+BIG = 1 << 40           # a "very large" bit score / threshold; 2 * BIG + 1 is still an exact float
+
+
+def draw_threshold(rng):
+    """ minscore thresholds: the boundary values 0 (accepted by the grammar, refuses only negative bit scores) and 1,
+        the usual ones, a very large one; thresholds equal to generated scores arise from draw_score2 (scores are drawn
+        ON the thresholds) and from retarget() (thresholds moved onto scores that were drawn) """
+    return rng.choice([0, 0, 0, 1, 1, 2, 10, 10, 25, 50, BIG])
+
+
+THRESHOLD_POOL = [0, 0, 1, 2, 10, 10, 25, 50, BIG]
+
+
+def draw_score2(rng, thresholds=None):
+    """ a DOUBLED bit score (half-integers are exact) on the classes the comparison `bitscore >= score` can tell
+        apart: negative, exactly 0.0, exactly the threshold, half a point / one point below and above it, very
+        large, fractional, far above """
+    s = rng.choice(thresholds or THRESHOLD_POOL)
+    r = rng.random()
+    if r < 0.17:
+        return rng.choice([-1, -1, -2, -2, -9, -20, -101, -2 * BIG - 1])
+    if r < 0.27:
+        return 0
+    if r < 0.43:
+        return 2 * s
+    if r < 0.54:
+        return 2 * s - 1
+    if r < 0.63:
+        return 2 * s + 1
+    if r < 0.69:
+        return 2 * s - 2
+    if r < 0.75:
+        return 2 * s + 2
+    if r < 0.81:
+        return 2 * BIG + rng.choice([-1, 0, 1])
+    if r < 0.90:
+        return 2 * rng.randint(0, 60) + 1
+    return 2 * s + 40
+
+
+_HIT_CLASSES = None
+
+
+def mk_hit(gene, prof, s2, flavour="profile"):
+    """ the hit object for (gene name, profile number, doubled score).  flavours: ProfileHit with a float score;
+        `dynamic`: DynamicHit, a score of 0 being left to its DEFAULT argument; `int`: ProfileHit with a Python int
+        where the score is integral """
+    global _HIT_CLASSES
+    if _HIT_CLASSES is None:
+        from antismash.common.hmm_rule_parser.structures import ProfileHit, DynamicHit
+        _HIT_CLASSES = (ProfileHit, DynamicHit)
+    ProfileHit, DynamicHit = _HIT_CLASSES
+    if flavour == "dynamic":
+        if s2 == 0:
+            return DynamicHit(gene, pname(prof))
+        return DynamicHit(gene, pname(prof), bitscore=s2 / 2)
+    if flavour == "int" and s2 % 2 == 0:
+        return ProfileHit(gene, pname(prof), s2 // 2, 1e-10)
+    return ProfileHit(gene, pname(prof), s2 / 2, 1e-10)
+
+
+def draw_flavour(rng):
+    return rng.choice(["profile", "profile", "profile", "dynamic", "int"])
 
 
 def pname(i):
@@ -29,12 +92,14 @@ class Tree:
         if depth <= 0 or r < 0.35:
             return ("single", neg, rng.randrange(NPROF))
         if r < 0.47:
-            return ("score", neg, rng.randrange(NPROF), rng.choice([0, 10, 10, 25, 50]))
+            return ("score", neg, rng.randrange(NPROF), draw_threshold(rng))
         if self.strict and in_cds and 0.47 <= r < 0.78:
             r = 0.9
         if r < 0.60 and (not in_cds or rng.random() < 0.1):
             opts = rng.sample(range(NPROF), rng.randint(1, 4))
-            return ("minimum", neg, rng.randint(1, 4), opts)
+            # the count on / one above the number of listed profiles (the constructor accepts both), or anything
+            count = rng.choice([rng.randint(1, 4), rng.randint(1, 4), 1, len(opts), len(opts) + 1])
+            return ("minimum", neg, count, opts)
         if r < 0.78 and (not in_cds or rng.random() < 0.25):
             return ("cds", neg, self.items(depth - 1, True))
         return ("group", neg, self.items(depth - 1, in_cds))
@@ -152,8 +217,10 @@ def mk_location(parts):
     return fls[0] if len(fls) == 1 else CompoundLocation(fls)
 
 
-def gen_hits(rng, genes, scores, prefer=None):
-    """ -> {gene id: [(profile, doubled bitscore)]}; some genes have no entry, some an empty list """
+def gen_hits(rng, genes, thresholds=None, prefer=None):
+    """ -> {gene id: [(profile, doubled bitscore)]}; some genes have no entry, some an empty list; scores on the
+        boundary classes of draw_score2 relative to `thresholds` (default: the pool all generated thresholds come
+        from); a gene may carry SEVERAL hits of one profile, also of mixed sign, the weaker one first or last """
     results = {}
     for gid, _ in genes:
         r = rng.random()
@@ -161,11 +228,165 @@ def gen_hits(rng, genes, scores, prefer=None):
             continue
         hits = []
         for _ in range(rng.choice([0, 1, 1, 2, 3])):
-            base = rng.choice(scores)
             prof = rng.choice(prefer) if prefer and rng.random() < 0.8 else rng.randrange(NPROF)
-            hits.append((prof, max(0, 2 * base + rng.choice([-1, 0, 0, 1, 20]))))
+            hits.append((prof, draw_score2(rng, thresholds)))
+        if hits and rng.random() < 0.3:
+            prof, s2 = rng.choice(hits)
+            other = draw_score2(rng, thresholds)
+            if (other < 0) == (s2 < 0):
+                other = rng.choice([-1, -2, -9]) if s2 >= 0 else rng.choice([0, 0, 1, 2, 20, 2 * rng.choice(thresholds or THRESHOLD_POOL)])
+            hits.insert(rng.randint(0, len(hits)), (prof, other))
         results[gid] = hits
     return results
+
+
+def tree_conds(tree):
+    """ every leaf / node of a tree """
+    yield tree
+    if tree[0] in ("cds", "group"):
+        for item in tree[2]:
+            for c in ([item[1]] if item[0] == "c" else item[1]):
+                yield from tree_conds(c)
+
+
+def tree_thresholds(tree):
+    return [c[3] for c in tree_conds(tree) if c[0] == "score"]
+
+
+def reach_sets(cutoff, circ, genes):
+    """ gene id -> ids of the OTHER genes closer than the cutoff, with the implementation's own distance function
+        (used by the generator to aim at boundaries and by the histogram; never by a comparison) -> (near, dist) """
+    from antismash.common.secmet.locations import get_distance_between_locations
+    locs = {gid: mk_location(parts) for gid, parts in genes}
+    wrap = circ if circ else None
+    dist = {}
+    for g in locs:
+        for o in locs:
+            if g != o:
+                dist[(g, o)] = get_distance_between_locations(locs[g], locs[o], wrap)
+    near = {g: [o for o in locs if o != g and dist[(g, o)] < cutoff] for g in locs}
+    return near, dist
+
+
+def retarget(rng, tree, near, hits):
+    """ moves thresholds and counts of a generated tree ONTO what was drawn for the layout: a minscore threshold onto
+        the score of an existing hit of its profile (0 for a negative score: threshold 0 against negative bit scores;
+        the integer just below / above a fractional score), a minimum count onto / one above / one below the number
+        of listed profiles available on some gene and the genes in its range """
+    kind = tree[0]
+    if kind == "score":
+        found = [s2 for hs in hits.values() for p, s2 in hs if p == tree[2]]
+        if found and rng.random() < 0.4:
+            s2 = rng.choice(found)
+            return ("score", tree[1], tree[2], max(0, rng.choice([s2 // 2, (s2 + 1) // 2])))
+        return tree
+    if kind == "minimum":
+        if near and rng.random() < 0.5:
+            g = rng.choice(sorted(near))
+            opts = set(tree[3])
+            total = sum(len(opts & {p for p, _ in hits.get(o, [])}) for o in [g] + near[g])
+            return ("minimum", tree[1], max(1, total + rng.choice([0, 0, 1, 1, -1])), tree[3])
+        return tree
+    if kind == "single":
+        return tree
+    return (kind, tree[1], [("c", retarget(rng, i[1], near, hits)) if i[0] == "c" else
+                            ("and", [retarget(rng, c, near, hits) for c in i[1]]) for i in tree[2]])
+
+
+def boundary_classes(chk, tree, gid, cutoff, near, dist, hits):
+    """ histogram of the boundary classes one evaluation (tree, arrangement, gene) lies on: what the comparisons of the
+        evaluator (bitscore >= score, hit_count >= count, distance < cutoff) see """
+    for (g, _o), d in dist.items():
+        if g == gid:
+            delta = d - cutoff
+            chk.count("bc_distance_" + ("eq_cutoff" if delta == 0 else "cutoff_minus_1" if delta == -1 else
+                                        "cutoff_plus_1" if delta == 1 else "closer" if delta < 0 else "farther"))
+    reach = [gid] + near[gid]
+    for c in tree_conds(tree):
+        if c[0] == "score":
+            _k, _neg, prof, s = c
+            chk.count("bc_threshold_" + ("0" if s == 0 else "1" if s == 1 else "very_large" if s >= BIG else "other"))
+            seen = [(o, s2) for o in reach for p, s2 in hits.get(o, []) if p == prof]
+            for _o, s2 in seen:
+                if s2 < 0:
+                    chk.count("bc_score_negative")
+                if s2 == 0:
+                    chk.count("bc_score_exactly_0")
+                if s2 % 2:
+                    chk.count("bc_score_fractional")
+                if abs(s2) >= 2 * BIG - 1:
+                    chk.count("bc_score_very_large")
+                delta = s2 - 2 * s
+                if -2 <= delta <= 2:
+                    chk.count("bc_score_vs_threshold_" + {-2: "one_below", -1: "half_below", 0: "equal",
+                                                          1: "half_above", 2: "one_above"}[delta])
+            per_gene = {}
+            for o, s2 in seen:
+                per_gene.setdefault(o, []).append(s2)
+            if any(len(v) > 1 for v in per_gene.values()):
+                chk.count("bc_score_several_hits_of_profile_on_one_gene")
+            if any(min(v) < 0 <= max(v) for v in per_gene.values()):
+                chk.count("bc_score_mixed_signs_on_one_gene")
+            if any(min(v) < 2 * s <= max(v) for v in per_gene.values()):
+                chk.count("bc_score_sufficient_and_insufficient_hit_on_one_gene")
+            if seen and all(s2 < 2 * s for _o, s2 in seen):
+                chk.count("bc_score_profile_in_reach_none_sufficient")
+                if s == 0:
+                    chk.count("bc_threshold_0_only_negative_scores_in_reach")
+                    if gid in per_gene:
+                        chk.count("bc_threshold_0_own_hit_negative")
+            if gid not in per_gene and any(s2 >= 2 * s for _o, s2 in seen):
+                chk.count("bc_score_decided_by_neighbour")
+        elif c[0] == "minimum":
+            _k, _neg, k, opts = c
+            own = len(set(opts) & {p for p, _ in hits.get(gid, [])})
+            total = sum(len(set(opts) & {p for p, _ in hits.get(o, [])}) for o in reach)
+            for label, value in (("available_in_reach", total), ("on_gene", own), ("listed", len(opts))):
+                if k == value:
+                    chk.count(f"bc_minimum_count_eq_{label}")
+                elif k == value + 1:
+                    chk.count(f"bc_minimum_count_one_above_{label}")
+                elif k == value - 1:
+                    chk.count(f"bc_minimum_count_one_below_{label}")
+
+
+def score_directed(rng):
+    """ directed at `bitscore >= score`: a rule with an anchoring name q and a [negated] minscore(p, s) (plain, under
+        and/or, or inside cds(...)), s on the boundary thresholds, 2-4 genes, the hits of p drawn around s and 0 -
+        one or several per gene, also on the evaluated gene itself -> (tree, n_genes, hits builder) """
+    q, p, x = rng.sample(range(NPROF), 3)
+    s = rng.choice([0, 0, 0, 0, 1, 1, 2, 10, BIG])
+    neg = rng.random() < 0.4
+    leaf = ("score", neg, p, s)
+    shape = rng.random()
+    if shape < 0.45:
+        tree = ("group", False, [("and", [("single", False, q), leaf])])
+    elif shape < 0.6:
+        tree = ("group", False, [("c", ("single", False, q)), ("c", leaf)])
+    elif shape < 0.75:
+        tree = ("group", False, [("and", [("single", False, q), ("cds", rng.random() < 0.3, [("and", [("single", False, x), leaf])])])])
+    elif shape < 0.9:
+        tree = ("group", False, [("c", leaf)])
+    else:
+        tree = ("group", False, [("and", [("minimum", False, 1, sorted([q, x])), ("group", rng.random() < 0.3, [("c", leaf), ("c", ("single", False, x))])])])
+
+    def hits_for(genes):
+        hits = {}
+        for gid, _ in genes:
+            hs = []
+            if rng.random() < 0.5:
+                hs.append((q, draw_score2(rng, [s])))
+            if rng.random() < 0.25:
+                hs.append((x, draw_score2(rng, [s])))
+            if rng.random() < 0.6:
+                pool = [-1, -2, -9, -2 * BIG - 1, 0, 2 * s - 2, 2 * s - 1, 2 * s, 2 * s + 1, 2 * s + 2, 1, 2]
+                weights = [4, 2, 1, 1, 3, 2, 2, 3, 2, 1, 1, 1]
+                for _ in range(rng.choice([1, 1, 1, 2, 2, 3])):
+                    hs.insert(rng.randint(0, len(hs)), (p, rng.choices(pool, weights)[0]))
+            if hs or rng.random() < 0.3:
+                hits[gid] = hs
+        return hits
+    return tree, rng.choice([2, 2, 3, 3, 4]), hits_for
 
 
 def enc_result(res, names):
@@ -179,8 +400,14 @@ def enc_result(res, names):
 
 RULE = ("random condition trees built through the rule_parser class constructors (all five kinds, negation anywhere, and-chains "
         "under or-lists, mostly parser-shaped, depth <= 4) x 1-7 genes on a line or ring with gaps drawn from {overlap, adjacent, "
-        "cutoff-1, cutoff, cutoff+1, far}, incl. across the origin and origin-spanning genes x 0-3 hits per gene with scores on "
-        "the minscore thresholds; detect() evaluated for every gene; every implementation answer is compared with the faithful "
+        "cutoff-1, cutoff, cutoff+1, far}, incl. across the origin and origin-spanning genes x 0-4 hits per gene; minscore "
+        "thresholds from {0, 1, 2, 10, 25, 50, 2^40} or moved onto a drawn score; bit scores (half-integers, exact) on the "
+        "classes negative / exactly 0.0 / equal to the threshold / half a point or one point below and above it / very "
+        "large / fractional, several hits of one profile on one gene incl. mixed signs, hit objects ProfileHit (float or "
+        "int score) or DynamicHit (score 0 = its default argument); minimum counts on / one above / one below the number "
+        "of listed profiles and of the profiles available on the gene and in its range; 8 % of the layouts directed at "
+        "`bitscore >= score` (q and [not] minscore(p, s), s in {0, 1, 2, 10, 2^40}, hits of p around 0 and s); the number "
+        "of evaluations on every boundary class is written to coverage.boundary_classes; detect() evaluated for every gene; every implementation answer is compared with the faithful "
         "model (fn 1) AND with the extracted specification holds/reasons/anc_spec (fn 2: a difference is a counterexample with "
         "its input).  Second stream: apply_cluster_rules on a real secmet Record with one constructor-built rule; the arguments "
         "of every rule.detect call are recorded and given to the model of the promotion loop (fn 3) and to its specification "
@@ -258,7 +485,7 @@ def apply_rules_stream(chk, rng, trees, names, n_cases):
         except ValueError:
             chk.count("apply_rejected")
             continue
-        hits = gen_hits(rng, genes, [0, 10, 25, 50])
+        hits = gen_hits(rng, genes, tree_thresholds(tree) + THRESHOLD_POOL)
         if rng.random() < 0.25:
             # directed: a chain of genes each in range of its neighbours only, the profiles of an and-chain (or of a
             # minimum) spread over them, so that only inner genes anchor and the outer ones are promoted
@@ -289,7 +516,8 @@ def apply_rules_stream(chk, rng, trees, names, n_cases):
         except Exception:  # pylint: disable=broad-except
             chk.count("apply_record_rejected")
             continue
-        results = {f"g{gid}": [ProfileHit(f"g{gid}", pname(p), s2 / 2, 1e-10) for p, s2 in hs] for gid, hs in hits.items()}
+        flavour = draw_flavour(rng)
+        results = {f"g{gid}": [mk_hit(f"g{gid}", p, s2, flavour) for p, s2 in hs] for gid, hs in hits.items()}
         parts_of = dict(genes)
         calls = []
         original = rule.detect
@@ -323,7 +551,7 @@ def apply_rules_stream(chk, rng, trees, names, n_cases):
         cases.append(flat)
         impl_outs.append(out)
         inputs.append({"tree": tree, "cutoff": cutoff, "record_length": length, "circular": bool(circ), "genes": genes,
-                       "hits": hits, "detect_calls": calls, "implementation": out})
+                       "hits": hits, "hit_objects": flavour, "detect_calls": calls, "implementation": out})
         chk.count("apply_rule_cases")
         if set(recorded) - self_anchors:
             chk.count("apply_promoted_gene_not_anchoring_itself")
@@ -338,7 +566,6 @@ def apply_rules_stream(chk, rng, trees, names, n_cases):
 # compared with the model's / the specification's value for that (rule, arrangement, gene) - the
 # model is pure, so that value is what the property demands whatever the object was asked before.
 # ------------------------------------------------------------------------------------------------
-SCORES = [0, 10, 25, 50]
 
 
 def tree_text(tree):
@@ -411,19 +638,19 @@ def directed_tree(rng):
         ("single", False, a),
         ("group", False, [("c", ("single", False, a)), ("c", ("single", False, d))]),
         ("minimum", False, 1, sorted([a, d])),
-        ("score", False, a, 10),
+        ("score", False, a, rng.choice([0, 1, 10])),
     ])
     inner = rng.choice([
         [("and", [("single", False, b), ("single", False, c)])],
         [("and", [("single", False, b), ("single", True, c)])],
         [("and", [("single", True, b), ("single", True, c)])],
-        [("c", ("single", False, b)), ("c", ("score", False, c, 10))],
-        [("and", [("single", False, b), ("score", False, c, 25)])],
+        [("c", ("single", False, b)), ("c", ("score", False, c, rng.choice([0, 1, 10])))],
+        [("and", [("single", False, b), ("score", False, c, rng.choice([0, 25]))])],
         [("and", [("single", False, b), ("group", n(), [("c", ("single", False, c)), ("c", ("single", False, d))])])],
     ])
     other = rng.choice([
         ("cds", n(), inner), ("cds", n(), inner), ("cds", n(), inner),
-        ("single", n(), b), ("score", n(), b, 25), ("minimum", n(), 2, sorted([b, c])),
+        ("single", n(), b), ("score", n(), b, rng.choice([0, 0, 1, 25, BIG])), ("minimum", n(), rng.choice([1, 2, 2, 3]), sorted([b, c])),
         ("group", n(), [("and", [("single", False, b), ("single", False, c)])]),
     ])
     parts = [anchor, other]
@@ -434,13 +661,12 @@ def directed_tree(rng):
     return ("group", False, [("c", parts[0]), ("c", parts[1])])
 
 
-def one_hit(rng, profs):
-    base = rng.choice(SCORES)
+def one_hit(rng, profs, thresholds=None):
     prof = rng.choice(profs) if profs and rng.random() < 0.85 else rng.randrange(NPROF)
-    return (prof, max(0, 2 * base + rng.choice([-1, 0, 0, 1, 20])))
+    return (prof, draw_score2(rng, thresholds))
 
 
-def mutate_gene_hits(rng, hits, gid, profs):
+def mutate_gene_hits(rng, hits, gid, profs, thresholds=None):
     """ changes the hits of one gene: lose all, lose/gain single profiles of the rule, re-score """
     r = rng.random()
     old = list(hits.get(gid, []))
@@ -454,22 +680,22 @@ def mutate_gene_hits(rng, hits, gid, profs):
     present = {p for p, _ in new}
     for prof in profs:
         if prof not in present and rng.random() < 0.4:
-            new.append(one_hit(rng, [prof]))
+            new.append(one_hit(rng, [prof], thresholds))
     if rng.random() < 0.3:
-        new = [(p, one_hit(rng, [p])[1]) for p, _ in new]
+        new = [(p, one_hit(rng, [p], thresholds)[1]) for p, _ in new]
     if new == old:
-        new = old[1:] if old else [one_hit(rng, profs)]
+        new = old[1:] if old else [one_hit(rng, profs, thresholds)]
     hits[gid] = new
 
 
-def next_arrangement(rng, arr, cutoff, profs):
+def next_arrangement(rng, arr, cutoff, profs, thresholds=None):
     """ the next arrangement of a history: same gene names, something changed (label says what) """
     circ, genes, hits = arr["circ"], list(arr["genes"]), {g: list(h) for g, h in arr["hits"].items()}
     r = rng.random()
     label = []
     if r < 0.5 or len(genes) < 2:
         for gid in rng.sample([g for g, _ in genes], min(len(genes), rng.choice([1, 1, 2]))):
-            mutate_gene_hits(rng, hits, gid, profs)
+            mutate_gene_hits(rng, hits, gid, profs, thresholds)
         label.append("hits")
     elif r < 0.6:
         first, second = rng.sample([g for g, _ in genes], 2)
@@ -488,7 +714,7 @@ def next_arrangement(rng, arr, cutoff, profs):
         label.append("drop")
     elif r < 0.9:
         _, circ, genes = gen_layout(rng, cutoff)
-        hits = gen_hits(rng, genes, SCORES, prefer=profs)
+        hits = gen_hits(rng, genes, thresholds, prefer=profs)
         label.append("fresh")
     elif r < 0.95:
         rng.shuffle(genes)
@@ -501,7 +727,7 @@ def next_arrangement(rng, arr, cutoff, profs):
     known = {g for g, _ in genes}
     hits = {g: h for g, h in hits.items() if g in known}
     if rng.random() < 0.2 and "hits" not in label:
-        mutate_gene_hits(rng, hits, rng.choice(sorted(known)), profs)
+        mutate_gene_hits(rng, hits, rng.choice(sorted(known)), profs, thresholds)
         label.append("hits")
     return {"circ": circ, "genes": genes, "hits": hits, "change": "+".join(label)}
 
@@ -559,6 +785,7 @@ class HistoryRunner:
         from antismash.common.hmm_rule_parser.structures import ProfileHit
         detect, conditions, _rule = self.make_rule(doc)
         tree = reflect(conditions, self.names)
+        flavour = doc.get("hit_objects", "profile")
         features, results, feature_objs, hit_lists = {}, {}, {}, {}
         outs = []
         current = None
@@ -581,12 +808,11 @@ class HistoryRunner:
                     results.clear()
                     for g, hs in hits.items():
                         lst = hit_lists.setdefault(g, [])
-                        lst[:] = [ProfileHit(f"g{g}", pname(p), s2 / 2, 1e-10) for p, s2 in hs]
+                        lst[:] = [mk_hit(f"g{g}", p, s2, flavour) for p, s2 in hs]
                         results[f"g{g}"] = lst
                 else:
                     features = {f"g{g}": types.SimpleNamespace(location=mk_location(parts)) for g, parts in genes}
-                    results = {f"g{g}": [ProfileHit(f"g{g}", pname(p), s2 / 2, 1e-10) for p, s2 in hs]
-                               for g, hs in hits.items()}
+                    results = {f"g{g}": [mk_hit(f"g{g}", p, s2, flavour) for p, s2 in hs] for g, hs in hits.items()}
             try:
                 out = enc_result(detect(f"g{gid}", features, results, arr["circ"]), self.names)
             except Exception as exc:  # pylint: disable=broad-except
@@ -639,7 +865,7 @@ def gen_history_doc(rng, trees, strict_trees, names, runner):
             tree = ("group", False, [("c", tree)])
     parsed = (directed or r < 0.75) and rng.random() < 0.85
     cutoff = rng.choice([1, 5, 20, 20, 50, 1000])
-    doc = {"cutoff": cutoff, "inplace": rng.random() < 0.4, "directed": directed}
+    doc = {"cutoff": cutoff, "inplace": rng.random() < 0.4, "directed": directed, "hit_objects": draw_flavour(rng)}
     if parsed:
         doc["rule_text"] = f"RULE r CATEGORY cat CUTOFF 1 NEIGHBOURHOOD 1 CONDITIONS {items_text(tree[2])}"
         doc["tree"] = None
@@ -652,13 +878,14 @@ def gen_history_doc(rng, trees, strict_trees, names, runner):
         return None
     tree = reflect(conditions, names)
     profs = sorted(tree_profiles(tree))
+    thresholds = tree_thresholds(tree) + THRESHOLD_POOL
     # first arrangement; directed histories keep the genes close together so that neighbours decide
     n_genes = rng.choice([2, 2, 3, 3, 4]) if directed else None
     _, circ, genes = gen_layout(rng, cutoff, n_genes)
-    hits = gen_hits(rng, genes, SCORES, prefer=profs)
+    hits = gen_hits(rng, genes, thresholds, prefer=profs)
     arrangements = [{"circ": circ, "genes": genes, "hits": hits, "change": "first"}]
     for _ in range(rng.choice([1, 1, 2, 2, 3])):
-        arrangements.append(next_arrangement(rng, arrangements[-1], cutoff, profs))
+        arrangements.append(next_arrangement(rng, arrangements[-1], cutoff, profs, thresholds))
     evaluations, orders = [], []
     for idx, arr in enumerate(arrangements):
         order, how = eval_order(rng, arr)
@@ -837,11 +1064,15 @@ def apply_history_stream(chk, rng, names, n_histories):
             cutoffs = [cutoff] * n_rules
         reflected = [reflect(rule.conditions, names) for rule in rules]
         profs = sorted(set().union(*[tree_profiles(t) for t in reflected]))
+        thresholds = [s for t in reflected for s in tree_thresholds(t)] + THRESHOLD_POOL
+        flavour = draw_flavour(rng)
         current_hits = {}
 
         def mk_profile(profile, _hits=current_hits):
             def find(_record, _hmmer_hits):
-                return {gene: [DynamicHit(gene, profile, bitscore=s2 / 2) for p, s2 in hs if pname(p) == profile]
+                # a score of exactly 0 is left to DynamicHit's default argument
+                return {gene: [DynamicHit(gene, profile) if s2 == 0 else DynamicHit(gene, profile, bitscore=s2 / 2)
+                               for p, s2 in hs if pname(p) == profile]
                         for gene, hs in _hits.items() if any(pname(p) == profile for p, _ in hs)}
             return DynamicProfile(profile, "d", find)
         ruleset = None
@@ -879,7 +1110,7 @@ def apply_history_stream(chk, rng, names, n_histories):
         rp.DetectionRule.detect = spy
         try:
             _, circ, genes = gen_layout(rng, cutoff)
-            arr = {"circ": circ, "genes": genes, "hits": gen_hits(rng, genes, SCORES, prefer=profs), "change": "first"}
+            arr = {"circ": circ, "genes": genes, "hits": gen_hits(rng, genes, thresholds, prefer=profs), "change": "first"}
             for _ in range(rng.choice([2, 2, 3, 4])):
                 end = max(e for _, parts in arr["genes"] for _, e, _ in parts)
                 length = arr["circ"] if arr["circ"] else end + rng.choice([0, 1, cutoff, cutoff + 5])
@@ -887,7 +1118,7 @@ def apply_history_stream(chk, rng, names, n_histories):
                     record = detect_util.make_record(length, bool(arr["circ"]), [(f"g{g}", parts) for g, parts in arr["genes"]])
                 except Exception:  # pylint: disable=broad-except
                     chk.count("apply_history_record_rejected")
-                    arr = next_arrangement(rng, arr, cutoff, profs)
+                    arr = next_arrangement(rng, arr, cutoff, profs, thresholds)
                     continue
                 parts_of.clear()
                 parts_of.update(dict(arr["genes"]))
@@ -905,8 +1136,7 @@ def apply_history_stream(chk, rng, names, n_histories):
                         # everything after apply_cluster_rules (protocluster formation) is C03's subject
                         chk.count("apply_history_pipeline_error_" + type(exc).__name__)
                 else:
-                    results = {f"g{g}": [ProfileHit(f"g{g}", pname(p), s2 / 2, 1e-10) for p, s2 in hs]
-                               for g, hs in arr["hits"].items()}
+                    results = {f"g{g}": [mk_hit(f"g{g}", p, s2, flavour) for p, s2 in hs] for g, hs in arr["hits"].items()}
                     try:
                         domains, type_hits = cluster_prediction.apply_cluster_rules(record, results, rules)
                         outs = []
@@ -923,7 +1153,7 @@ def apply_history_stream(chk, rng, names, n_histories):
                         chk.count("apply_history_error_" + type(exc).__name__)
                         outs = [[-1, err_code(exc)] for _ in rules]
                 records.append({"arrangement": arr, "length": length, "outs": outs})
-                arr = next_arrangement(rng, arr, cutoff, profs)
+                arr = next_arrangement(rng, arr, cutoff, profs, thresholds)
         finally:
             rp.DetectionRule.detect = plain_detect
         if len(records) < 2:
@@ -1186,6 +1416,39 @@ def exhaustive_small():
                 yield tree, cutoff, circ, genes, hits
 
 
+def exhaustive_scores():
+    """ a second finite sub-domain enumerated completely (thorough tier), on the boundary of `bitscore >= score`:
+        thresholds 0 and 1 against the hit lists {none, -0.5, 0, 0.5, 1, 1.5, (-0.5 then 1), (-1.5 and -0.5)} of p0 on
+        each of two genes, p1 present (score 0) or absent """
+    import itertools
+    score_leaves = [("score", neg, 0, s) for neg in (False, True) for s in (0, 1)]
+    all_leaves = score_leaves + [("single", False, 1), ("single", True, 1)]
+    trees = [("group", False, [("c", leaf)]) for leaf in all_leaves]
+    for first, second in itertools.product(all_leaves, repeat=2):
+        trees.append(("group", False, [("and", [first, second])]))
+        trees.append(("group", False, [("c", first), ("c", second)]))
+        for neg in (False, True):
+            trees.append(("group", False, [("c", ("cds", neg, [("and", [first, second])]))]))
+            trees.append(("group", False, [("c", ("cds", neg, [("c", first), ("c", second)]))]))
+    cutoff = 5
+    layouts = []
+    for gap in (cutoff - 1, cutoff):
+        layouts.append((None, [(0, [(2, 8, 1)]), (1, [(8 + gap, 14 + gap, -1)])]))
+        layouts.append((60, [(0, [(gap - 2, 12, 1)]), (1, [(50, 58, 1)])]))
+    p0_lists = [[], [-1], [0], [1], [2], [3], [-1, 2], [-3, -1]]
+    p1_lists = [[], [0]]
+    per_gene = [[(0, s2) for s2 in a] + [(1, s2) for s2 in b] for a in p0_lists for b in p1_lists]
+    for tree in trees:
+        for circ, genes in layouts:
+            for first, second in itertools.product(per_gene, repeat=2):
+                hits = {}
+                if first:
+                    hits[0] = first
+                if second:
+                    hits[1] = second
+                yield tree, cutoff, circ, genes, hits
+
+
 def run(chk):
     if not chk.build_and_audit():
         return chk.finish(RULE)
@@ -1197,9 +1460,10 @@ def run(chk):
     target = 25000 if chk.tier == "quick" else 400000
     cases, impl_outs, inputs = [], [], []
     trees = Tree(rng)
-    def add_cases(tree, conditions, cutoff, circ, genes, hits, tag=None):
+    def add_cases(tree, conditions, cutoff, circ, genes, hits, tag=None, flavour="profile", reach=None):
         features = {f"g{gid}": types.SimpleNamespace(location=mk_location(parts)) for gid, parts in genes}
-        results = {f"g{gid}": [ProfileHit(f"g{gid}", pname(p), s2 / 2, 1e-10) for p, s2 in hs] for gid, hs in hits.items()}
+        results = {f"g{gid}": [mk_hit(f"g{gid}", p, s2, flavour) for p, s2 in hs] for gid, hs in hits.items()}
+        near_of, dist = reach if reach is not None else reach_sets(cutoff, circ, genes)
         try:
             rule = rp.DetectionRule("r", "cat", cutoff, 0, conditions)
             detect = lambda name: rule.detect(name, features, results, circ)
@@ -1211,7 +1475,6 @@ def run(chk):
         ctx = enc_ctx(cutoff, circ, genes, hits)
         etree = enc_tree(tree)
         nleaves = leaves(tree)
-        wrap = circ if circ else None
         for gid, _ in genes:
             flat = [PROP, 1] + ctx + etree + [gid]
             try:
@@ -1219,12 +1482,12 @@ def run(chk):
             except Exception as exc:  # pylint: disable=broad-except
                 out = [-1, err_code(exc)]
                 chk.count("error_" + common.ERR_NAME.get(out[1], str(out[1])))
-            near = any(o != gid and get_distance_between_locations(features[f"g{gid}"].location, features[f"g{o}"].location,
-                                                                   wrap) < cutoff for o, _ in genes)
+            near = bool(near_of[gid])
+            boundary_classes(chk, tree, gid, cutoff, near_of, dist, hits)
             cases.append(flat)
             impl_outs.append(out)
             sample = {"tree": tree, "cutoff": cutoff, "circular_origin": circ, "genes": genes, "hits": hits,
-                      "gene": gid, "implementation": out}
+                      "hit_objects": flavour, "gene": gid, "implementation": out}
             inputs.append(sample)
             chk.count("met" if out[0] == 1 else "not_met")
             if out[0] == 1 and out[1] > 0:
@@ -1237,7 +1500,11 @@ def run(chk):
             chk.note_case(flat, nleaves >= 2 and near, sample)
 
     while len(cases) < target:
-        if rng.random() < 0.5:
+        directed = rng.random() < 0.08
+        if directed:
+            # aimed at `bitscore >= score`: thresholds 0 / 1 / large against negative, zero and just-off scores
+            tree, n_genes, hits_for = score_directed(rng)
+        elif rng.random() < 0.5:
             # a top-level or-list of and-chains, as the parser builds for `CONDITIONS a and b or c ...`
             tree = ("group", rng.random() < 0.1, trees.items(rng.choice([0, 1, 2, 3]), False))
         else:
@@ -1245,13 +1512,27 @@ def run(chk):
         if tree[0] not in ("group", "cds") and rng.random() < 0.8:
             tree = ("group", False, [("c", tree)])
         try:
-            conditions = build(tree)
+            build(tree)
         except ValueError:
             chk.count("constructor_rejected")
             continue
-        cutoff, circ, genes = gen_layout(rng)
-        hits = gen_hits(rng, genes, [0, 10, 25, 50])
-        add_cases(tree, conditions, cutoff, circ, genes, hits)
+        if directed:
+            cutoff, circ, genes = gen_layout(rng, None, n_genes)
+            hits = hits_for(genes)
+            reach = reach_sets(cutoff, circ, genes)
+            chk.count("directed_minscore_boundary_layouts")
+        else:
+            cutoff, circ, genes = gen_layout(rng)
+            hits = gen_hits(rng, genes, tree_thresholds(tree) + THRESHOLD_POOL)
+            reach = reach_sets(cutoff, circ, genes)
+            # thresholds onto drawn scores, minimum counts onto / next to the number of available profiles
+            moved = retarget(rng, tree, reach[0], hits)
+            try:
+                build(moved)
+                tree = moved
+            except ValueError:      # two operands became equal: the constructors refuse repeated operands
+                chk.count("retarget_rejected")
+        add_cases(tree, build(tree), cutoff, circ, genes, hits, flavour=draw_flavour(rng), reach=reach)
     if chk.tier == "thorough":
         n_before = len(cases)
         for tree, cutoff, circ, genes, hits in exhaustive_small():
@@ -1266,6 +1547,19 @@ def run(chk):
             "from {[not] p, [not] minscore(p,10), [not] minimum(k,[p0,p1]) : p in {p0,p1}, k in {1,2}} (no minimum inside cds) "
             "x two genes at gap {cutoff-1, cutoff} on a line and across the origin of a ring x every assignment of "
             "{absent, score 9.5, score 10} to (gene, profile); coverage of the correspondence, not the unbounded claim")
+        n_before = len(cases)
+        for tree, cutoff, circ, genes, hits in exhaustive_scores():
+            try:
+                conditions = build(tree)
+            except ValueError:
+                chk.count("exhaustive_constructor_rejected")
+                continue
+            add_cases(tree, conditions, cutoff, circ, genes, hits, tag="exhaustive_scores")
+        chk.extra["exhaustive_subdomain_scores"] = (
+            f"{len(cases) - n_before} evaluations: every tree L | L1 and L2 | L1 or L2 | [not] cds(L1 and/or L2) with leaves "
+            "from {[not] minscore(p0, s) : s in {0, 1}} + {[not] p1} x the same four two-gene layouts x every assignment "
+            "of the p0 hit lists {none, [-0.5], [0.0], [0.5], [1.0], [1.5], [-0.5, 1.0], [-1.5, -0.5]} and p1 {absent, 0.0} to "
+            "the two genes; coverage of the correspondence on the boundary of `bitscore >= score`, not the unbounded claim")
     # the independent verdict first (it yields a failing input), then the model/implementation correspondence
     spec_outs = spec_verdicts(chk, cases, impl_outs, 2, "DetectionRule.detect vs holds/reasons/anc_spec",
                               lambda i: inputs[i])
@@ -1281,6 +1575,11 @@ def run(chk):
                       {"theorem_or_correspondence": "C01_met, C01_reasons, C01_ancillary", "flat": cases[i],
                        "model": model_outs[i], "specification": spec_outs[i], "input": inputs[i]})
     chk.crosscheck_vm(cases, model_outs)
+    chk.extra["boundary_classes"] = {
+        "what": "number of (evaluation, leaf[, hit in reach]) of the detect stream on each boundary class of the three "
+                "comparisons of the evaluator: bitscore >= score (bc_score_*, bc_threshold_*), hit_count >= count "
+                "(bc_minimum_*), distance < cutoff (bc_distance_*: ordered pairs evaluated gene / other gene)",
+        "classes": {k[3:]: v for k, v in sorted(chk.histogram.items()) if k.startswith("bc_")}}
 
     a_cases, a_impl, a_inputs = apply_rules_stream(chk, rng, trees, names, 2500 if chk.tier == "quick" else 40000)
     a_spec = spec_verdicts(chk, a_cases, a_impl, 4, "apply_cluster_rules (one rule) vs recorded_spec", lambda i: a_inputs[i])
